@@ -226,13 +226,16 @@ type world struct {
 	rrSvc *discovery.ModelDiscoveryService
 }
 
+// staleConf: model_registry.unification with a stale threshold far below a history's duration (set by caseStale only)
+var staleConf *config.UnificationConfig
+
 func newWorld(n int, names []string) *world {
 	w := &world{n: n, names: names, cl: &client{next: map[string]func() ([]*domain.ModelInfo, error){}}}
 	for i := 0; i < n; i++ {
 		w.eps = append(w.eps, &domain.Endpoint{Name: fmt.Sprintf("e%d", i), URLString: epURL(i), Type: "ollama", Status: domain.StatusHealthy})
 	}
 	w.base = runtime.NumGoroutine()
-	w.reg = registry.NewUnifiedMemoryModelRegistry(vlib.QuietLogger(), nil, nil, nil)
+	w.reg = registry.NewUnifiedMemoryModelRegistry(vlib.QuietLogger(), staleConf, nil, nil)
 	w.svc = discovery.NewModelDiscoveryService(w.cl, &repo{w.eps}, w.reg, discovery.DiscoveryConfig{Timeout: 2 * time.Second, ConcurrentWorkers: 3}, vlib.QuietLogger())
 	if rr, err := registry.NewModelRegistry(registry.RegistryConfig{Type: "memory", EnableUnifier: false}, vlib.QuietLogger()); err == nil {
 		w.rr = rr
@@ -367,6 +370,9 @@ func (w *world) apply(o op, forced bool) (ok bool) {
 		return w.reg.RegisterModel(ctx, epURL(o.E), mi(o.Model)) == nil
 	case "remove":
 		return w.reg.RemoveEndpoint(ctx, epURL(o.E)) == nil
+	case "wait": // time passes (longer than a configured stale threshold): nothing is reported meanwhile
+		time.Sleep(time.Duration(o.I) * time.Millisecond)
+		return true
 	case "badurl":
 		return w.reg.RegisterModels(ctx, o.URL, mis(o.Models)) == nil
 	case "run":
@@ -880,6 +886,13 @@ func main() {
 	caseHist(c, "seq", 2, []op{{Op: "disc", E: 0, Models: []*mdl{M("x"), M("y")}, Filter: &fcfg{Include: []string{"x*"}, Exclude: []string{"a**"}}},
 		{Op: "disc", E: 0, Models: []*mdl{M("z")}, Fail: true}, {Op: "badurl", URL: "no-scheme", Models: []*mdl{M("q")}},
 		{Op: "disc", E: 1, Models: []*mdl{M("X"), M("y")}, Filter: &fcfg{Include: []string{"*"}, Exclude: []string{"x"}}}})
+	// model_registry.unification.stale_threshold configured (here 30 ms): an endpoint that is not listed again for longer
+	// than that still owns what it last listed, in every view
+	staleConf = &config.UnificationConfig{Enabled: true, StaleThreshold: 30 * time.Millisecond, CleanupInterval: 10 * time.Millisecond}
+	caseHist(c, "seq", 2, []op{{Op: "reg", E: 0, Models: []*mdl{M("x")}}, {Op: "reg", E: 1, Models: []*mdl{M("y")}}, {Op: "wait", I: 80}, {Op: "reg", E: 0, Models: []*mdl{M("x")}}, {Op: "wait", I: 80}, {Op: "reg", E: 0, Models: []*mdl{M("x"), M("z")}}})
+	caseHist(c, "seq", 2, []op{{Op: "disc", E: 0, Models: []*mdl{M("x")}}, {Op: "disc", E: 1, Models: []*mdl{M("x"), M("y")}}, {Op: "wait", I: 80}, {Op: "disc", E: 1, Models: []*mdl{M("q")}, Fail: true}, {Op: "disc", E: 0, Models: []*mdl{M("x")}}, {Op: "wait", I: 50}, {Op: "disc", E: 0, Models: []*mdl{M("x")}}})
+	caseHist(c, "seq", 3, []op{{Op: "reg", E: 0, Models: []*mdl{M("x", d1)}}, {Op: "reg", E: 1, Models: []*mdl{M("x", d1)}}, {Op: "reg", E: 2, Models: []*mdl{M("y")}}, {Op: "wait", I: 80}, {Op: "reg", E: 2, Models: []*mdl{M("y")}}, {Op: "reg", E: 2, Models: []*mdl{M("y")}}})
+	staleConf = nil
 	// a listing change that arrives in a cancelled round, then again in clean rounds
 	caseHist(c, "seq", 2, []op{{Op: "disc", E: 0, Models: []*mdl{M("x")}}, {Op: "disc", E: 1, Models: []*mdl{M("x")}},
 		{Op: "disc", E: 1, Models: []*mdl{M("y")}, Cancel: true}, {Op: "disc", E: 1, Models: []*mdl{M("y")}}, {Op: "disc", E: 1, Models: []*mdl{M("y")}}})
